@@ -12,7 +12,7 @@ THEOREM_STATEMENTS = []
 
 
 def streams(seed, tier):
-    return _hc.build_streams(["pair", "ideal", "live", "reuse"], seed, tier, 0.8)
+    return _hc.build_streams(["pair", "ideal", "live", "reuse", "chanmix"], seed, tier, 0.8)
 
 
 def oracle(name, ops, out):
